@@ -38,7 +38,7 @@ CONSTANTS Headers,      \* model checking: set of block headers [kind, pats, cri
           HostNames,    \* model checking: set of looked-up host names (Seq(char))
           MaxBlocks,    \* model checking: explicit blocks per config
           Env,          \* [luser, home, lhost, fqdn : Seq(char)] - the local machine
-          PinNone, PinOrder, PinSnapshot, KeepRepeats,   \* model checking: the fx the walk uses
+          PinNone, PinOrder, PinSnapshot, KeepRepeats, PinMatchHost,   \* model checking: the fx the walk uses
           StrictFirstBlock    \* TRUE: "without duplicates" is demanded of the whole final list (OpenSSH);
                               \* FALSE: also accepted: the first contributing block's own list taken as written
 
@@ -98,20 +98,24 @@ BlockDictFrom(body, d, fx) == IF body = <<>> THEN d ELSE BlockDictFrom(Tail(body
 BlockDict(b, fx) == BlockDictFrom(b.body, <<>>, fx)
 
 (* ---- does a block apply? (_pattern_matches / _does_match) ---- *)
-RECURSIVE CritHold(_, _, _, _, _)
-CritHold(cs, host, opts, final, env) ==
+\* `Match host` is tested against the HostName obtained SO FAR (in either pass), else against the looked-up name.
+\* fx.match_host_final_only (seeded design error, never the code): the obtained HostName is consulted in the
+\* final pass only - a Match block that applies through it then loses to a later block in the first pass
+RECURSIVE CritHold(_, _, _, _, _, _)
+CritHold(cs, host, opts, final, env, fx) ==
     IF cs = <<>> THEN TRUE
     ELSE LET c == Head(cs)
              passed == CASE c.type = "final"        -> final
-                         [] c.type = "host"         -> PatternMatches(c.pats, IF Has(opts, "hostname") THEN Raw(Get(opts, "hostname")[1]) ELSE host)
+                         [] c.type = "host"         -> PatternMatches(c.pats, IF Has(opts, "hostname") /\ (final \/ ~fx.match_host_final_only)
+                                                                                    THEN Raw(Get(opts, "hostname")[1]) ELSE host)
                          [] c.type = "originalhost" -> PatternMatches(c.pats, host)
                          [] c.type = "user"         -> PatternMatches(c.pats, IF Has(opts, "user") THEN Raw(Get(opts, "user")[1]) ELSE env.luser)
                          [] OTHER -> TRUE
          IN  IF c.type = "all" THEN TRUE
              ELSE IF passed = c.neg THEN FALSE
-             ELSE CritHold(Tail(cs), host, opts, final, env)
-Applies(b, host, opts, final, env) ==
-    IF b.kind = "host" THEN PatternMatches(b.pats, host) ELSE CritHold(b.crit, host, opts, final, env)
+             ELSE CritHold(Tail(cs), host, opts, final, env, fx)
+Applies(b, host, opts, final, env, fx) ==
+    IF b.kind = "host" THEN PatternMatches(b.pats, host) ELSE CritHold(b.crit, host, opts, final, env, fx)
 
 (* ---- one pass over the blocks (_lookup): first obtained value wins, IdentityFile accumulates ---- *)
 RECURSIVE ExtendNew(_, _)
@@ -128,7 +132,7 @@ MergeEntry(opts, e, fx) ==
          ELSE opts
 RECURSIVE Merge(_, _, _)
 Merge(opts, d, fx) == IF d = <<>> THEN opts ELSE Merge(MergeEntry(opts, Head(d), fx), Tail(d), fx)
-Visit(opts, b, host, final, env, fx) == IF Applies(b, host, opts, final, env) THEN Merge(opts, BlockDict(b, fx), fx) ELSE opts
+Visit(opts, b, host, final, env, fx) == IF Applies(b, host, opts, final, env, fx) THEN Merge(opts, BlockDict(b, fx), fx) ELSE opts
 RECURSIVE Pass(_, _, _, _, _, _, _)
 Pass(cfg, i, opts, host, final, env, fx) ==
     IF i > Len(cfg) THEN opts
@@ -140,7 +144,7 @@ AppVec(cfg, i, opts, host, final, env, fx) ==
     IF i > Len(cfg) THEN <<>>
     ELSE LET o == Visit(opts, cfg[i], host, final, env, fx)
          IN  IF Len(o) >= 0
-             THEN <<Applies(cfg[i], host, opts, final, env)>> \o AppVec(cfg, i + 1, o, host, final, env, fx)
+             THEN <<Applies(cfg[i], host, opts, final, env, fx)>> \o AppVec(cfg, i + 1, o, host, final, env, fx)
              ELSE <<>>
 InjectHostName(opts, host) == IF Has(opts, "hostname") THEN opts ELSE Append(opts, [k |-> "hostname", vals |-> <<host>>])
 
@@ -186,7 +190,8 @@ App1(cfg, host, env, fx)   == AppVec(cfg, 1, <<>>, host, FALSE, env, fx)
 App2(cfg, host, env, fx)   == AppVec(cfg, 1, Pass1(cfg, host, env, fx), host, TRUE, env, fx)
 
 (* ---- the statement of C40, declaratively -------------------------------------- *)
-Good == [none_overrides |-> FALSE, h_in_dict_order |-> FALSE, snapshot_filter |-> FALSE, keep_block_repeats |-> FALSE]
+Good == [none_overrides |-> FALSE, h_in_dict_order |-> FALSE, snapshot_filter |-> FALSE, keep_block_repeats |-> FALSE,
+         match_host_final_only |-> FALSE]
 Lax  == [Good EXCEPT !.keep_block_repeats = TRUE]      \* blocks parsed with their IdentityFile lists as written
 \* a config/host pair is unambiguous when every block applies in both passes or in neither,
 \* except `Match final` blocks, which by definition apply in the final pass only (Appendix F)
@@ -205,7 +210,7 @@ Dicts(cfg) == DictsFx(cfg, Lax)
 RECURSIVE WalkD(_, _, _, _, _, _, _, _, _)
 WalkD(cfg, ds, i, opts, app, host, final, env, fx) ==
     IF i > Len(cfg) THEN [opts |-> opts, app |-> app]
-    ELSE LET yes == Applies(cfg[i], host, opts, final, env)
+    ELSE LET yes == Applies(cfg[i], host, opts, final, env, fx)
              o   == IF yes THEN Merge(opts, ds[i], fx) ELSE opts
          IN  IF Len(o) >= 0 THEN WalkD(cfg, ds, i + 1, o, Append(app, yes), host, final, env, fx) ELSE [opts |-> o, app |-> app]
 LookupParts(cfg, ds, host, env, fx) ==
@@ -274,7 +279,8 @@ VARIABLES cfg, host,   \* the parsed file and the name looked up
           i,           \* next block
           opts         \* the options dictionary being built
 vars == <<cfg, host, pc, i, opts>>
-Fx == [none_overrides |-> PinNone, h_in_dict_order |-> PinOrder, snapshot_filter |-> PinSnapshot, keep_block_repeats |-> KeepRepeats]
+Fx == [none_overrides |-> PinNone, h_in_dict_order |-> PinOrder, snapshot_filter |-> PinSnapshot, keep_block_repeats |-> KeepRepeats,
+       match_host_final_only |-> PinMatchHost]
 
 RECURSIVE Configs(_)
 Configs(n) == IF n = 0 THEN {<<>>}
